@@ -25,7 +25,15 @@ Pre-conditions of the generated histories (the statement's, made precise): compo
 along ancestry; a component commit may carry two build tags (a rebuild) - both numbers name the same build;
 every parent commit pins (by either number) a build-tagged component commit reachable from the component's
 head; along every parent edge the pinned commit of the child is the pinned commit of the parent or a
-descendant of it; all commit times of both repositories lie within one day.
+descendant of it.  A component may have several branches provided no commit reachable from two of
+its branch heads matches the search text (then 'the pinned version contains Y' means the same by ancestry
+and by per-branch listing: every report-related build and everything that contains it is private to one
+branch).  Commit times (the statement's 'within the cut-off windows', ak/ghist.py:38-48, 579-600,
+1144-1156): a parent commit is never a day or more older than a component commit contained in the
+build it pins (so that no parent commit whose pin contains a report-related component build is below
+the component's cut-off 'oldest report-related build - 1 day', whichever builds are report-related),
+and all commit times of the two repositories span less than 30 days (no branch head is 30 days older
+than a report-related build).  'All times within one day' (the first family) is the special case.
 """
 import itertools
 import json
@@ -38,6 +46,9 @@ from harness import c06
 
 PARENT, COMP = 'app', 'lib'
 TEXT = 'BUG-7'
+DAY = 86400
+COMPONENT_WINDOW = DAY              # ak.ghist._CHECK_COMPONENTS_CUTOFF_PERIOD (read, not imported)
+OBSOLETE_WINDOW = 30 * DAY          # ak.ghist._OBSOLETE_BRANCH_CUTOFF_PERIOD
 
 
 # ------------------------------------------------------------------------------------------------
@@ -229,7 +240,12 @@ def check(comp_hist, par_hist, text, obs_comp, obs_parent):
     ys = [y for y, _ in obs_comp]
     exp, firsts = expected_included(comp_hist, par_hist, sorted(set(ys)))
     csp = c06.Spec(comp_hist)
-    shape = 'linear-component' if all(len(p) <= 1 for p in csp.parents.values()) else 'component-with-merges'
+    if len(comp_hist['branches']) > 1:
+        shape = 'multi-branch-component'
+    elif all(len(p) <= 1 for p in csp.parents.values()):
+        shape = 'linear-component'
+    else:
+        shape = 'component-with-merges'
     if len(set(ys)) != len(ys):
         fails.append(('included_at_first', 'component-build-shown-twice', f"component builds shown: {ys}"))
     for y, incl in obs_comp:
@@ -271,10 +287,43 @@ def check(comp_hist, par_hist, text, obs_comp, obs_parent):
         'first_without_own_match': any(not (M & psp.anc_or_self(P)) for d in firsts.values() for P in d),
         'shape': shape,
         'n_firsts': sum(len(d) for d in firsts.values()),
-        'parallel_component_builds': shape != 'linear-component' and any(
+        'parallel_component_builds': shape == 'component-with-merges' and any(
             not csp.contains(x, y) and not csp.contains(y, x) for x, y in itertools.combinations(sorted(set(ys)), 2)),
     }
+    facts.update(time_facts(csp, psp, sorted(set(ys)), firsts))
     return fails, facts
+
+
+def time_facts(csp, psp, ys, firsts):
+    """reach facts about commit dates and component branches (spec side only)"""
+    def ct(y):
+        return csp.commits[y].get('t', 0)
+
+    def pt(q):
+        return psp.commits[q].get('t', 0)
+    # the component branch a report-related build belongs to: the first branch (spec order) reaching it
+    branch_of = {}
+    for y in ys:
+        for b in csp.order:
+            if y in csp.R[b]:
+                branch_of[y] = b
+                break
+    with_builds = [b for b in csp.order if any(branch_of.get(y) == b for y in ys)]
+    first_builds = [(P, new) for d in firsts.values() for P, new in d.items()]
+    older = any(pt(P) <= ct(y2) - DAY for P, _ in first_builds for y2 in ys)
+    backport = False
+    if len(with_builds) >= 2:
+        low = [y for y in ys if branch_of.get(y) == with_builds[0]]
+        oldest = min(ys, key=lambda y: (ct(y), y))
+        if branch_of.get(oldest) != with_builds[0]:
+            backport = any(oldest in new and pt(P) <= min(ct(y) for y in low) - DAY for P, new in first_builds)
+    allt = [d.get('t', 0) for d in csp.commits.values()] + [d.get('t', 0) for d in psp.commits.values()]
+    return {
+        'component_branches_with_builds': len(with_builds),
+        'first_older_than_other_build': older,
+        'backport_pattern': backport,
+        'span_days': (max(allt) - min(allt)) // DAY,
+    }
 
 
 # ------------------------------------------------------------------------------------------------
@@ -463,7 +512,192 @@ def gen_parent(rnd, comp_hist):
     return {'name': PARENT, 'commits': commits, 'branches': branches}
 
 
+# ---- second family: commit dates spread over several days, components with several branches ----
+
+SPREAD_BASE = 1_000_000          # case indices >= SPREAD_BASE belong to the second family
+COMP_BRANCH_NAMES = ['release/3.1', 'release/3.2', 'release/3.10', 'master']
+
+
+def _delta(rnd):
+    """time between a commit and its latest parent: minutes .. hours, or up to 2.5 days"""
+    return rnd.randint(60, 20000) if rnd.random() < .55 else rnd.randint(20000, 5 * DAY // 2)
+
+
+def _retime(rnd, hist, lag=None):
+    """explicit commit dates growing along ancestry (ids of the generated histories are topological);
+    lag: {commit id: extra seconds} - work on a branch may start long after the branch point"""
+    t = {}
+    for d in hist['commits']:
+        t[d['id']] = (max([t[p] for p in d['parents']], default=rnd.randint(0, DAY)) + _delta(rnd)
+                      + (lag or {}).get(d['id'], 0))
+        d['t'] = t[d['id']]
+
+
+def gen_component_branches(rnd):
+    """component with 2-3 branches forking from a common trunk: the trunk (1-3 commits, some built, none
+    matching) is shared, every branch has a private part of 0-4 commits (a chain, or fork/join segments)
+    carrying builds and matching commits; the branches never merge one another.  Dates grow along
+    ancestry, independently per branch (any branch may hold the oldest report-related build); build
+    numbers are given in the order of the dates (a CI counter), with one release in all tags or one
+    release per branch (the trunk has the smallest)."""
+    nb = rnd.choice([2, 2, 2, 3])
+    names = rnd.sample(COMP_BRANCH_NAMES, nb)
+    commits = []
+
+    def new(parents, kind):
+        d = {'id': len(commits) + 1, 'parents': list(parents), 'kind': kind}
+        commits.append(d)
+        return d['id']
+    tip = None
+    trunk = []
+    for _ in range(rnd.randint(1, 3)):
+        tip = new([tip] if tip else [], 'trunk')
+        trunk.append(tip)
+    branches = []
+    empty_used = False
+    lag = {}
+    for k, nm in enumerate(names):
+        tip = trunk[-1] if rnd.random() < .6 else rnd.choice(trunk)
+        m = rnd.randint(1, 4)
+        if not empty_used and rnd.random() < .08:
+            m, empty_used = 0, True
+        made = 0
+        if m and rnd.random() < .4:
+            lag[len(commits) + 1] = rnd.randint(DAY, 6 * DAY)      # e.g. a back-port made days later
+        while made < m:
+            if m - made >= 3 and rnd.random() < .3:
+                a, c = new([tip], k), new([tip], k)
+                tip = new([a, c] if rnd.random() < .5 else [c, a], k)
+                made += 3
+            else:
+                tip = new([tip], k)
+                made += 1
+        branches.append([nm, tip])
+    _retime(rnd, {'commits': commits}, lag)
+    p_tag, p_match = rnd.choice([.5, .8]), rnd.choice([.4, .7])
+    private = [d for d in commits if d['kind'] != 'trunk']
+    tagged = {d['id'] for d in private if rnd.random() < p_tag}
+    tagged |= {d['id'] for d in commits if d['kind'] == 'trunk' and rnd.random() < (.8 if d['id'] == 1 else .4)}
+    match = {d['id'] for d in private if rnd.random() < p_match} or {rnd.choice(private)['id']}
+    per_branch_release = rnd.random() < .5
+    rel = {nm: (3, 1 + i) for i, nm in enumerate(sorted(names, key=c06.branch_sort_key))}
+    p_rebuild = rnd.choice([0, 0, .3])
+    num = rnd.randint(1, 5)
+    for d in sorted(commits, key=lambda d: (d['t'], d['id'])):
+        i = d['id']
+        d['msg'] = f"{TEXT} lib change {i}" if i in match else f"lib work {i}"
+        if i in tagged:
+            major, minor = (3, 0) if d['kind'] == 'trunk' else rel[names[d['kind']]]
+            if not per_branch_release:
+                major, minor = 3, 1
+            d['tags'] = [gm.release_tag(num, major, minor)]
+            if rnd.random() < p_rebuild:
+                num += rnd.randint(1, 2)
+                d['tags'].append(gm.release_tag(num, major, minor))
+                if rnd.random() < .5:
+                    d['tags'].reverse()
+            num += rnd.randint(1, 3)
+    for d in commits:
+        del d['kind']
+    rnd.shuffle(branches)
+    return {'name': COMP, 'commits': commits, 'branches': branches}
+
+
+def gen_parent_spread(rnd, comp_hist):
+    """as gen_parent, for a component with any number of branches and explicit dates: a parent commit is
+    made after its parents and - normally - after the component build it pins (in 15 % of the commits its
+    clock is behind by less than a day); a merge of two lines that follow different component branches
+    cannot have a monotone pin, such a commit gets one parent instead"""
+    csp = c06.Spec(comp_hist)
+    reach = set()
+    for _, h in comp_hist['branches']:
+        reach |= csp.anc_or_self(h)
+    targets = [c['id'] for c in comp_hist['commits'] if gm.is_build_commit(c) and c['id'] in reach]
+    if not targets:
+        return None
+    ctime = {c['id']: c['t'] for c in comp_hist['commits']}
+    versions = {c['id']: build_versions(c) for c in comp_hist['commits']}
+    pinver, pins, ptime = {}, {}, {}
+    n = rnd.randint(2, 10)
+    commits = []
+    if rnd.random() < .4:
+        tagged = {i for i in range(1, n + 1) if rnd.random() < .7}
+    else:
+        tagged = set(rnd.sample(range(1, n + 1), rnd.randint(0, min(5, n))))
+    match = set(rnd.sample(range(1, n + 1), rnd.choice([0, 0, 1, 2])))
+    roots = 1 if rnd.random() < .85 else 2
+    stay = rnd.choice([.3, .6, .8])
+    for i in range(1, n + 1):
+        if i <= roots:
+            parents = []
+        else:
+            r = rnd.random()
+            if r < .2 and i > 2:
+                parents = sorted(rnd.sample(range(1, i), 2), reverse=rnd.random() < .5)
+            elif r < .7:
+                parents = [i - 1]
+            else:
+                parents = [rnd.randrange(1, i)]
+        cands = [t for t in targets if all(csp.contains(t, pins[p]) for p in parents)]
+        if not cands and len(parents) == 2:
+            parents = parents[:1]
+            cands = [t for t in targets if csp.contains(t, pins[parents[0]])]
+        if not cands:
+            return None
+        keep = [t for t in cands if any(pins[p] == t for p in parents)]
+        if keep and rnd.random() < stay:
+            pins[i] = rnd.choice(keep)
+        elif not parents:
+            pins[i] = cands[0] if rnd.random() < .6 else rnd.choice(cands)
+        else:
+            pins[i] = rnd.choice(cands)
+        floor = max([pinver[p] for p in parents], default=(0, 0, 0))
+        vs = [v for v in versions[pins[i]] if v >= floor]
+        if not vs:
+            return None
+        pinver[i] = rnd.choice(vs)
+        # dates: later than the parents; relative to the pinned build (the youngest component commit it
+        # contains, dates grow along the component's ancestry): after it, or behind it by < 1 day
+        newest = max(ctime[c] for c in csp.anc_or_self(pins[i]))
+        if rnd.random() < .15:
+            after = newest - rnd.randint(0, COMPONENT_WINDOW - 1)
+        else:
+            after = newest + (rnd.randint(60, 20000) if rnd.random() < .6 else rnd.randint(20000, 2 * DAY))
+        ptime[i] = max([ptime[p] + _delta(rnd) for p in parents] + [after])
+        d = {'id': i, 'parents': parents, 't': ptime[i],
+             'msg': f"{TEXT} app change {i}" if i in match else f"app work {i}",
+             'files': {'DEPENDS': json.dumps({COMP: '.'.join(str(x) for x in pinver[i])})}}
+        if i in tagged:
+            d['tags'] = [gm.release_tag(10 + i, 5, rnd.choice([4, 5]))]
+        commits.append(d)
+    names = rnd.sample(['release/5.4', 'release/5.5', 'release/5.10'], rnd.randint(0, 2)) + ['master']
+    branches = []
+    for nm in names:
+        head = rnd.randint(max(1, n - 2), n) if rnd.random() < .5 else rnd.randint(1, n)
+        branches.append([nm, head])
+    rnd.shuffle(branches)
+    return {'name': PARENT, 'commits': commits, 'branches': branches}
+
+
+def gen_case_spread(seed, index):
+    rnd = random.Random(seed * 7_000_003 + SPREAD_BASE * 31 + index)
+    while True:
+        if rnd.random() < .3:
+            comp = gen_component(rnd)           # one branch (chain / DAG / braid), re-dated
+            _retime(rnd, comp)
+        else:
+            comp = gen_component_branches(rnd)
+        par = gen_parent_spread(rnd, comp)
+        if par is None:
+            continue
+        case = {'lib': comp, 'app': par, 'text': TEXT, 'parent_first': rnd.random() < .5}
+        if preconditions_hold(case):
+            return case
+
+
 def gen_case(seed, index):
+    if index >= SPREAD_BASE:
+        return gen_case_spread(seed, index - SPREAD_BASE)
     rnd = random.Random(seed * 7_000_003 + index)
     while True:
         comp = gen_component(rnd)
@@ -476,7 +710,17 @@ def preconditions_hold(case):
     """re-checks the generator's guarantees on a (possibly hand-edited) case"""
     comp, par = case['lib'], case['app']
     csp, psp = c06.Spec(comp), c06.Spec(par)
-    (cb, chead), = comp['branches']
+    if not comp['branches']:
+        return False
+    reach = Counter()
+    for h in {h for _, h in comp['branches']}:
+        reach.update(csp.anc_or_self(h))
+    # several component branches: nothing reachable from two branch heads matches the text
+    if len(comp['branches']) > 1:
+        if len({h for _, h in comp['branches']}) != len(comp['branches']):
+            return False
+        if any(k > 1 and case['text'] in csp.commits[c].get('msg', '') for c, k in reach.items()):
+            return False
     nums = {c['id']: build_versions(c) for c in comp['commits'] if build_versions(c)}
     allv = [v for vs in nums.values() for v in vs]
     if len(set(allv)) != len(allv):
@@ -487,18 +731,31 @@ def preconditions_hold(case):
     pin = {i: pinned_commit(comp, d) for i, d in psp.commits.items()}
     ver = {i: pinned_version(comp, d) for i, d in psp.commits.items()}
     for i, d in psp.commits.items():
-        if pin[i] is None or pin[i] not in csp.anc_or_self(chead):
+        if pin[i] is None or pin[i] not in reach:
             return False
         if any(not csp.contains(pin[i], pin[p]) or ver[i] < ver[p] for p in psp.parents[i]):
             return False
         if len(build_versions(d)) > 1:
             return False
-    ts = [c.get('t', 0) for c in comp['commits']] + [c.get('t', 0) for c in par['commits']]
-    return max(ts) - min(ts) < 86400
+    # commit dates within the cut-off windows
+    ct = {c['id']: c.get('t', 0) for c in comp['commits']}
+    for i, d in psp.commits.items():
+        if not d.get('t', 0) > max(ct[c] for c in csp.anc_or_self(pin[i])) - COMPONENT_WINDOW:
+            return False
+    ts = list(ct.values()) + [c.get('t', 0) for c in par['commits']]
+    return max(ts) - min(ts) < OBSOLETE_WINDOW
 
 
 def n_histories(tier):
     return 6400 if tier == 'quick' else 64000
+
+
+def n_spread(tier):
+    return 3200 if tier == 'quick' else 32000
+
+
+def case_indices(tier):
+    return list(range(n_histories(tier))) + [SPREAD_BASE + i for i in range(n_spread(tier))]
 
 
 HBLOCK = 50
@@ -507,10 +764,11 @@ HBLOCK = 50
 def _hist_work(args):
     tier, seed, start, step = args
     out = []
-    for s in range(0, n_histories(tier), HBLOCK):
+    idx = case_indices(tier)
+    for s in range(0, len(idx), HBLOCK):
         if (s // HBLOCK) % step != start:
             continue
-        for i in range(s, s + HBLOCK):
+        for i in idx[s:s + HBLOCK]:
             case = gen_case(seed, i)
             fails, facts, _ = evaluate(case)
             out.append((i, facts, fails))
@@ -525,7 +783,12 @@ REACH = ['pin moving across >= 2 report-related component builds',
          'parent build without own matching commit',
          'component with parallel report-related builds',
          'parent pins the larger of two build numbers of one component commit',
-         'dependency cycle', 'acyclic dependencies with >= 2 levels']
+         'dependency cycle', 'acyclic dependencies with >= 2 levels',
+         'component with >= 2 branches carrying report-related builds',
+         'first-shipping parent build a day or more older than another report-related component build',
+         'oldest report-related component build on a higher-sorted branch, first shipped by a parent build a day '
+         'or more older than every report-related build of the lowest-sorted component branch',
+         'commit dates spread over >= 3 days']
 
 
 def run(b):
@@ -564,7 +827,7 @@ def run(b):
                 b.fail('C07.repo_order', f"C07.repo_order:{ksuf}", txt, {'deps': deps, 'order': order})
     b.notes['order_cases'] = n_order
     worst = {}
-    for i in range(n_histories(b.tier)):
+    for i in case_indices(b.tier):
         if i not in hist_res:
             b.error(f"history case #{i} was not evaluated")
             continue
@@ -579,6 +842,14 @@ def run(b):
             b.hit(REACH[2])
         if facts['pins_larger_of_two']:
             b.hit(REACH[3])
+        if facts['component_branches_with_builds'] >= 2:
+            b.hit(REACH[6])
+        if facts['first_older_than_other_build']:
+            b.hit(REACH[7])
+        if facts['backport_pattern']:
+            b.hit(REACH[8])
+        if facts['span_days'] >= 3:
+            b.hit(REACH[9])
         for clause, ksuf, txt in fails:
             key = (clause, ksuf)
             size = len(json.dumps(case))
@@ -588,7 +859,13 @@ def run(b):
         case, txt = shrink(case, clause, ksuf, txt)
         b.fail(f"C07.{clause}", f"C07.{clause}:{ksuf}", txt, case)
     b.notes['history_cases'] = n_histories(b.tier)
-    b.notes['history_nontrivial'] = sum(1 for f, _ in hist_res.values() if f['distinct_pins'] >= 2)
+    b.notes['spread_cases'] = n_spread(b.tier)
+    sp = [f for i, (f, _) in hist_res.items() if i >= SPREAD_BASE]
+    b.notes['spread_multi_branch'] = sum(1 for f in sp if f['component_branches_with_builds'] >= 2)
+    b.notes['spread_first_older_than_other_build'] = sum(1 for f in sp if f['first_older_than_other_build'])
+    b.notes['spread_backport_pattern'] = sum(1 for f in sp if f['backport_pattern'])
+    b.notes['spread_nontrivial'] = sum(1 for f in sp if f['distinct_pins'] >= 2)
+    b.notes['history_nontrivial'] = sum(1 for i, (f, _) in hist_res.items() if i < SPREAD_BASE and f['distinct_pins'] >= 2)
     b.notes['history_first_builds'] = sum(f['n_firsts'] for f, _ in hist_res.values())
     b.require_reach(REACH)
 
